@@ -357,6 +357,20 @@ theorem index_consistent (cap msgCap : Nat) (hcap : 0 < cap) (ops : List (Op × 
     C10Lru.IndexOK (MemLru.run (MemStore.empty cap msgCap) ops) :=
   C10Lru.index_consistent cap msgCap hcap ops hnc
 
+open MdkVerif.MemLru in
+/-- `messages_cache` is read by no trait method: it cannot influence any observation, in any history -/
+theorem messages_cache_unobservable (ops : List (Op × List Nat)) (a b : MemStore) (h : vis a = vis b) :
+    MemLru.observe a ops = MemLru.observe b ops ∧ vis (MemLru.run a ops) = vis (MemLru.run b ops) :=
+  C10Lru.messages_cache_unobservable ops a b h
+
+open MdkVerif.MemLru in
+/-- at any fill level a rollback never changes a message, a dedup record, a welcome or a processed-welcome record -/
+theorem rollback_keeps_messages_and_records (s : MemStore) (hb : s.u.backend = .mem) (gid name : Nat) (ch : List Nat)
+    (s' : MemStore) (h : MemLru.snapRollback s gid name ch = some s') :
+    s'.u.msgs = s.u.msgs ∧ s'.u.pms = s.u.pms ∧ s'.u.welcomes = s.u.welcomes ∧ s'.u.pws = s.u.pws ∧
+    s'.qMsgGroups = s.qMsgGroups ∧ s'.qPms = s.qPms ∧ s'.qWelcomes = s.qWelcomes ∧ s'.qPws = s.qPws :=
+  C10Lru.rollback_keeps_messages_and_records s hb gid name ch s' h
+
 /-- (d) … and with a restore collision beyond the capacity they do (corpus/C10lru/index_ghost_after_collision.trace) -/
 theorem index_full_false : ¬ C10Lru.index_full := C10Lru.index_full_false
 
